@@ -1,9 +1,10 @@
 import Pfst.JsonUtil
 import Pfst.Quote
+import Pfst.Indentable
 /-! Driver package for C08: strings travel as lists of code points (no JSON escaping questions); the per-character
 classification is a table `[[codepoint, isprintable, repr_raw, isspace], ...]` computed by the harness with CPython. -/
 namespace Pfst.Drv.C08
-open Lean Pfst.JsonUtil Pfst.Quote
+open Lean Pfst.JsonUtil Pfst.Quote Pfst.Indentable
 
 def toChars (l : List Nat) : List Char := l.map Char.ofNat
 def ofChars (l : List Char) : Json := ofNats (l.map Char.toNat)
@@ -28,6 +29,13 @@ def putResJson : PutRes → Json
   | .ok t => Json.mkObj [("ok", ofChars t)]
   | .valueError => Json.str "ValueError"
   | .unmodelled => Json.str "unmodelled"
+
+/-- optional text part of a "C08.indentable" case -/
+def strs_lines (j : Json) : Option (List Char × Nat × List (List Char)) := do
+  let ind ← chars j "ind"
+  let lo ← getNat j "lo"
+  let lines ← strs j "lines"
+  some (ind, lo, lines)
 
 def dispatch (f : String) (j : Json) : Option Json :=
   match f with
@@ -68,6 +76,30 @@ def dispatch (f : String) (j : Json) : Option Json :=
         some (toChars i, toChars l)) | return Json.mkObj [("err", "bad item")]
       return Json.arr (items.map (fun (i, s) =>
         Json.arr #[ofChars (indentVal i s), ofChars (getDocstr i (indentVal i s))])).toArray
+  | "C08.indentable" => some <| Id.run do
+      -- {mode: 0|1|2, strs: [[kind, first, last]...], items: [[lo, skip, hi]...]} → indentable line numbers per item;
+      -- with "lines" (lines lo..hi as code point lists) and "ind": also the indented and the dedented block of item 0
+      let some mi := getNat j "mode" | return Json.mkObj [("err", "bad mode")]
+      let m : DocMode := if mi == 0 then .off else if mi == 1 then .all else .strict
+      let some sa := getArr j "strs" | return Json.mkObj [("err", "bad strs")]
+      let some strs := sa.toList.mapM (fun x => do
+        let l ← asNats x
+        match l with
+        | [k, a, b] =>
+          let kind : StrKind := if k == 0 then .docFirst else if k == 1 then .docOther else if k == 2 then .bytesExpr else .other
+          some (⟨kind, a, b⟩ : MStr)
+        | _ => none) | return Json.mkObj [("err", "bad str")]
+      let some ia := getArr j "items" | return Json.mkObj [("err", "bad items")]
+      let some items := ia.toList.mapM asNats | return Json.mkObj [("err", "bad item")]
+      let lns := items.map (fun it => match it with
+        | [lo, skip, hi] => ofNats (indentableLns m strs lo skip hi)
+        | _ => Json.null)
+      match strs_lines j with
+      | some (ind, lo, lines) =>
+        return Json.mkObj [("lns", Json.arr lns.toArray),
+                           ("indent", Json.arr ((indentBlock ind m strs lo lines).map ofChars).toArray),
+                           ("dedent", Json.arr ((dedentBlock ind m strs lo lines).map ofChars).toArray)]
+      | none => return Json.mkObj [("lns", Json.arr lns.toArray)]
   | "C08.comment" => some <| Id.run do
       -- batch of [tail, comment|null, full] → {get, put|del}
       let some k := (get j "cls").bind parseCls | return Json.mkObj [("err", "bad cls")]
